@@ -282,7 +282,7 @@ Section Parser.
         if i_convfail x then (s, RConvErr) else
         let s1 := load_tokens (i_toks x) (drop_positions s) in
         let (r, p) := parse_at (view_of s1) (p_strict s1) (fuel_of (i_toks x)) 0 [] in
-        (set_cursor p s1, RTrees r (match r with PErr c => if c =? E_STRICT then loc_at (p_positions s1) p else (0, 0)
+        (set_cursor p s1, RTrees r (match r with PErr c => if N.eqb c E_STRICT then loc_at (p_positions s1) p else (0, 0)
                                                | _ => (0, 0) end))
     | OParsePos =>
         if i_convfail x then (s, RConvErr) else
@@ -301,14 +301,14 @@ Section Parser.
         let toks := i_toks x in
         (set_cursor (REC_END (view_of s1)) s1,
          RRec (recover nat (length toks) (is_eof_t toks) (is_semi_t toks) (starts_t toks) (PS (view_of s1))
-                       (fuel_of toks) 0 [] []))
+                       (fuel_of toks) 0 [] [] None))
     | ORecoverPos =>
         if i_convfail x then (s, RConvErr) else
         let s1 := load_tokens (i_toks x) (set_positions (Some (i_poss x)) s) in
         let toks := i_toks x in
         (set_cursor (REC_END (view_of s1)) s1,
          RRec (recover nat (length toks) (is_eof_t toks) (is_semi_t toks) (starts_t toks) (PS (view_of s1))
-                       (fuel_of toks) 0 [] []))
+                       (fuel_of toks) 0 [] [] None))
     | OApply => (fold_left apply_opt (i_opts x) s, RNone)
     | OReset | OPutGet =>
         (mkP [] 0 0 0 None None false (if d_reset_keeps_dialect D then p_dialect s else 0), RNone)
